@@ -338,3 +338,47 @@ Definition wf_mesh (m : mesh) : bool :=
   && nodups (map fst (m_blocks m))
   && forallb (fun b : block => existsb (String.eqb (fst b)) ELEMENT_TYPES) (m_blocks m)
   && nodupb (map fst (flat_map snd (m_blocks m))).
+
+(* ------------------------------- graph-level (stage-wise) queries ---------
+   The operators that FOLLOW the adjacency matrix (Laplacian, edge gradient,
+   e2v, n-hop) applied to a GIVEN boolean matrix.  `run_query` factors through
+   them (`C13_stagewise_factor`), so the second stage of the code can be held
+   against the model on graphs that are too large for the in-Coq evaluation of
+   the first stage (mesh -> incidence -> adjacency): hub vertices whose degree
+   exceeds the width of the narrow integer dtypes. *)
+Definition wf_bmat (A : bmat) : bool :=
+  Nat.eqb (length (bdat A)) (bnr A)
+  && forallb (fun r : list bool => Nat.eqb (length r) (bnc A)) (bdat A).
+Definition squareb (A : bmat) : bool := Nat.eqb (bnr A) (bnc A).
+
+Inductive gquery :=
+| GLap
+| GGrad (total : bool)
+| GE2V (self_loop strict : bool)
+| GHop (n : nat) (self_loop zd : bool).
+
+Definition hop_of (A : bmat) (n : nat) (self_loop zd : bool) : zmat :=
+  let h := n_hop_bool A n in
+  if self_loop then b2zmat h else if zd then zero_diag h else minus_eye h.
+
+Definition edge_gradient_opt (A : bmat) (total : bool) : option zmat :=
+  if total then Some (edge_gradient_of A)
+  else match upper_edges A with [] => None | _ => Some (edge_gradient_of A) end.
+
+Definition run_gquery (A : bmat) (q : gquery) : result :=
+  if wf_bmat A && squareb A then
+    match q with
+    | GLap => Some (res_of_z (laplacian_of A))
+    | GGrad tot => option_map res_of_z (edge_gradient_opt A tot)
+    | GE2V sl st => Some (res_of_z (e2v_of A sl st))
+    | GHop n sl zd => Some (res_of_z (hop_of A n sl zd))
+    end
+  else None.
+
+Definition check_graph (A : bmat) (qs : list (gquery * result)) : list nat :=
+  map fst (filter (fun kq => negb (result_eqb (run_gquery A (fst (snd kq))) (snd (snd kq))))
+                  (combine (seq 0 (length qs)) qs)).
+
+(* dense literal rows are written with these two names by the harness *)
+Definition T := true.
+Definition F := false.
